@@ -417,6 +417,11 @@ struct Stats {
     caret_from_italic_checks: u64,
     fallback_constant_checks: u64,
     synth_notdef_varies: u64,
+    fallback_constant_cases: u64,
+    second_opinion_cases: u64,
+    second_opinion_glyph_checks: u64,
+    second_opinion_mvar_checks: u64,
+    second_opinion_disagreements: u64,
     mvar_tags_outside_table: u64,
     nontrivial: u64,
 }
@@ -476,7 +481,7 @@ fn static_value(font: &FontRef, field: &str) -> Option<f64> {
     })
 }
 
-fn judge(case: &Case, d: &Design, res: &Result<Vec<u8>, fcx::Failure>) -> Verdict {
+fn judge(case: &Case, d: &Design, res: &Result<Vec<u8>, fcx::Failure>, second: bool) -> Verdict {
     let mut st = Stats { evaluations: 1, ..Default::default() };
     let mut viol: Vec<(String, String)> = vec![];
     let mut nontrivial = false;
@@ -802,6 +807,7 @@ fn judge(case: &Case, d: &Design, res: &Result<Vec<u8>, fcx::Failure>) -> Verdic
         }
     }
     if !case.explicit && case.fallback_inputs_constant() {
+        st.fallback_constant_cases = 1;
         for t in &mvar_tags {
             for m in 0..nm {
                 if case.is_layer(m) {
@@ -818,22 +824,61 @@ fn judge(case: &Case, d: &Design, res: &Result<Vec<u8>, fcx::Failure>) -> Verdic
             }
         }
     }
+    // ---- second opinion (machinery guard, never a verdict): skrifa for glyph advances / phantom
+    // points, read-fonts' own MVAR evaluation for the metric deltas
+    let mut disagreements: Vec<String> = vec![];
+    if second {
+        st.second_opinion_cases = 1;
+        for g in &case.glyphs {
+            let Some(gid) = names.iter().position(|n| *n == g.name).map(|i| i as u16) else { continue };
+            for m in 0..nm {
+                st.second_opinion_glyph_checks += 1;
+                match otvar::crosscheck_skrifa_detail(bytes, gid, &coords[m]) {
+                    Ok(cc) if cc.ok() => {}
+                    Ok(cc) => disagreements.push(format!("glyph {} master {m}: {cc:?}", g.name)),
+                    Err(e) => disagreements.push(format!("glyph {} master {m}: {e}", g.name)),
+                }
+            }
+        }
+        if let Ok(mvar) = font.mvar() {
+            use write_fonts::read::types::F2Dot14;
+            for t in &mvar_tags {
+                for m in 0..nm {
+                    let c: Vec<F2Dot14> = coords[m].iter().map(|v| F2Dot14::from_f32(*v as f32)).collect();
+                    let tag = Tag::new_checked(t.as_bytes()).unwrap_or(Tag::new(b"????"));
+                    st.second_opinion_mvar_checks += 1;
+                    match mvar.metric_delta(tag, &c) {
+                        Ok(fx) => {
+                            let ours = vf.mvar_delta(t, &coords[m]);
+                            // read-fonts accumulates in 16.16 and rounds to an integer
+                            if (fx.to_f64() - ours).abs() > 0.5 + 0.01 {
+                                disagreements.push(format!("MVAR {t} master {m}: otvar {ours}, read-fonts {}", fx.to_f64()));
+                            }
+                        }
+                        Err(e) => disagreements.push(format!("MVAR {t} master {m}: read-fonts {e}")),
+                    }
+                }
+            }
+        }
+        st.second_opinion_disagreements = disagreements.len() as u64;
+    }
     st.nontrivial = nontrivial as u64;
     let obs = json!({
         "hvar": hmode, "vvar": vmode, "mvar_tags": mvar_tags, "advance_submodels": models.len(),
         "glyph_names": names, "advance_mismatches": obs_adv, "mvar_mismatches": obs_mvar,
+        "second_opinion_disagreements": disagreements,
     });
     Verdict { stats: st, viol, obs, nontrivial }
 }
 
-fn run_case(case: &Case) -> (Design, Verdict) {
+fn run_case(case: &Case, second: bool) -> (Design, Verdict) {
     let d = build(case);
     let sc = vcore::Scratch::new("c04");
     let path = d
         .write_designspace(sc.path())
         .unwrap_or_else(|e| vcore::machinery_error(&format!("writing the source: {e}")));
     let r = fcx::compile(&path, &fcx::Opts::default(), None);
-    let v = judge(case, &d, &r);
+    let v = judge(case, &d, &r, second);
     (d, v)
 }
 
@@ -1287,6 +1332,8 @@ fn spaces(tier: Tier) -> Vec<Space> {
     // ---- M2: all metrics at once; fractional values where fontinfo admits them; avar
     {
         let mut sets: Vec<Vec<Vec<f64>>> = one.clone();
+        // the same 1-axis sets with the masters listed in descending order
+        sets.extend(one.iter().map(|s| s.iter().rev().cloned().collect()));
         sets.extend(sets_2axis(4, false).into_iter().step_by(if thorough { 1 } else { 7 }));
         let reps = if thorough { 40 } else { 12 };
         let n = sets.len() * reps * 2 * 2;
@@ -1417,7 +1464,7 @@ fn replay(path: &std::path::Path) -> ! {
     let v: Value = serde_json::from_str(&s).unwrap_or_else(|e| vcore::machinery_error(&format!("{path:?}: {e}")));
     let r = v.get("replay").cloned().unwrap_or(v);
     let case: Case = serde_json::from_value(r["case"].clone()).unwrap_or_else(|e| vcore::machinery_error(&format!("case: {e}")));
-    let (d, verdict) = run_case(&case);
+    let (d, verdict) = run_case(&case, true);
     if let Some(stored) = r.get("design") {
         if let Ok(sd) = serde_json::from_value::<Design>(stored.clone()) {
             if sd != d {
@@ -1449,6 +1496,15 @@ fn main() {
     if let Some(p) = &args.replay {
         replay(p);
     }
+    // `c04 <tier> sizes`: the spaces and their sizes, nothing is run
+    if args.rest.first().map(|s| s.as_str()) == Some("sizes") {
+        let sp = spaces(args.tier);
+        for s in &sp {
+            println!("{:>9}  {}", s.n, s.name);
+        }
+        println!("{:>9}  total", sp.iter().map(|s| s.n).sum::<usize>());
+        return;
+    }
     // `c04 probe <space> <index>`: print one case (debugging aid)
     if args.rest.first().map(|s| s.as_str()) == Some("probe") {
         let sp = spaces(args.tier);
@@ -1456,7 +1512,7 @@ fn main() {
         let i: usize = args.rest.get(2).and_then(|s| s.parse().ok()).unwrap_or(0);
         let s = sp.iter().find(|s| s.name == name).unwrap_or_else(|| vcore::machinery_error("no such space"));
         let case = (s.make)(i);
-        let (_, v) = run_case(&case);
+        let (_, v) = run_case(&case, true);
         println!("{}", serde_json::to_string(&case).unwrap());
         println!("{}", serde_json::to_string_pretty(&v.obs).unwrap());
         println!("{}", serde_json::to_string_pretty(&v.stats).unwrap());
@@ -1501,7 +1557,7 @@ fn main() {
         for gi in ci * chunk..((ci + 1) * chunk).min(total) {
             let (si, li) = locate(gi);
             let case = (sp[si].make)(li);
-            let (d, v) = run_case(&case);
+            let (d, v) = run_case(&case, gi % 8 == 0);
             add_stats(&mut st, &v.stats);
             let e = per_space.entry(sp[si].name.clone()).or_default();
             e.0 += 1;
@@ -1511,6 +1567,9 @@ fn main() {
             }
             if v.stats.compile_errors > 0 && errors.is_empty() {
                 errors.push(json!({"case": case, "error": v.obs}));
+            }
+            if v.stats.second_opinion_disagreements > 0 && errors.len() < 3 {
+                errors.push(json!({"case": case, "second_opinion": v.obs["second_opinion_disagreements"]}));
             }
             if li == sp[si].n / 2 && v.viol.is_empty() {
                 samples.push(json!({"case": case, "observation": v.obs}));
@@ -1570,6 +1629,13 @@ fn main() {
                 .collect(),
         ),
     );
+    if tot.second_opinion_disagreements > 0 {
+        eprintln!("{}", serde_json::to_string_pretty(&errors).unwrap_or_default());
+        vcore::machinery_error(&format!(
+            "the evaluator (otvar) and the second opinion (skrifa / read-fonts) disagree in {} comparisons; no verdict",
+            tot.second_opinion_disagreements
+        ));
+    }
     rep.set("samples", samples);
     rep.set("compile_error_samples", errors);
     rep.set("skipped_by_time_budget", skipped);
